@@ -19,6 +19,20 @@ def valOfSexp : Sexp → Option Val
   | .list [.atom "str", .atom n] => n.toInt?.map Val.str
   | _ => none
 
+/-- an arm as written: `(lit k)` is the integer literal arm `k -> …` (type `{k}`, flagged), anything else a pattern type -/
+def armOfSexp : Sexp → Option (Ty × Bool)
+  | .list [.atom "lit", .atom n] =>
+    match n.toInt? with
+    | some k => some (.refine (if k < 0 then T0.iInt else T0.iNat) (.eq k), true)
+    | none => none
+  | sx => (tyOfSexp sx).map (fun t => (t, false))
+
+def armsOfSexp : List Sexp → Option (List (Ty × Bool))
+  | [] => some []
+  | x :: xs => match armOfSexp x, armsOfSexp xs with
+    | some a, some as => some (a :: as)
+    | _, _ => none
+
 def findTagged (key : String) : List Sexp → Option (List Sexp)
   | [] => none
   | .list (.atom k :: rest) :: more => if k = key then some rest else findTagged key more
@@ -31,7 +45,7 @@ def atomStr : Sexp → String
 /-- recorded findings: the class of a violating match -/
 def classifyMatch (s : Ty) (arms : List Ty) : String :=
   -- accepted although the union of the arms does not cover the scrutinee: inherited from C06 (unsound `derefine` step)
-  if !(superOf T0 Fx.repaired id (unionAll T0 id arms) s) then "C06-derefine-unsound" else "-"
+  if !(superOf T0 Fx.repaired id (unionAll T0 id arms) s) then "C33-nonexhaustive-accepted" else "-"
 
 def handle (line : String) : String :=
   match splitTabs line with
@@ -40,12 +54,13 @@ def handle (line : String) : String :=
     let xs := (Sexp.parseAll impl.toList).getD []
     match Sexp.parse input with
     | some (.list [.atom "match", ss, .list (.atom "arms" :: sps), .list (.atom "vals" :: svs)]) =>
-      match tyOfSexp ss, tysOfSexp sps with
-      | some s, some arms =>
+      match tyOfSexp ss, armsOfSexp sps with
+      | some s, some farms =>
+        let arms := farms.map (·.1)
         let vals := svs.filterMap valOfSexp
         let implAcc := (findTagged "accept" xs).isSome
         let implRej := (findTagged "reject" xs).isSome
-        let taken := vals.map (fun v => toString (armTaken T0 arms v))
+        let taken := vals.map (fun v => match armOutcome T0 farms v with | some i => toString i | none => "crash")
         -- the front end (`sub_unify`, coercions) is outside the model: the acceptance column follows the implementation when the
         -- two differ only there; the difference is counted by the check (`model-accept` tag)
         let model := (if implAcc then "(accept)" else if implRej then "(reject" ++ String.join (((findTagged "reject" xs).getD []).map (fun x => " " ++ atomStr x)) ++ ")" else "?")
@@ -65,15 +80,22 @@ def handle (line : String) : String :=
                     | none => some ("viol:arm " ++ t ++ " does not exist for " ++ showVal v)
                     | some p => if den T0 p v then none else some ("viol:arm " ++ t ++ " taken for " ++ showVal v ++ " which its pattern does not contain"))
               bad.headD "ok"
-        let k := if spec.startsWith "viol" then classifyMatch s arms else "-"
+        let crashK := vals.any (fun v => den T0 s v && (armOutcome T0 farms v).isNone)
+        let k := if !spec.startsWith "viol" then "-"
+                 else if spec.startsWith "viol:crash" && crashK then "C33-arm-test-type-error"
+                 else classifyMatch s arms
         cid ++ "\t" ++ model ++ "\t" ++ spec ++ "\t" ++ k
       | _, _ => cid ++ "\tout-of-model(type)\t-\t-"
     | some (.list [.atom "accept", ss, .list (.atom "arms" :: sps)]) =>
       -- acceptance alone: the real front end against the transcribed `get_match_call_t`
-      match tyOfSexp ss, tysOfSexp sps with
-      | some s, some arms =>
+      match tyOfSexp ss, armsOfSexp sps with
+      | some s, some farms =>
+        let arms := farms.map (·.1)
         cid ++ "\t" ++ (if accepted T0 id s arms then "(accept)" else "(reject)") ++ "\t-\t-"
       | _, _ => cid ++ "\tout-of-model(type)\t-\t-"
+    | some (.list [.atom "src", _]) =>
+      -- a corpus program that must be rejected (design finding #24, fixed with C03's `(And, And)` arm: `C33_finding24_rejected`)
+      cid ++ "\t(reject)\t" ++ (if impl = "(reject)" then "ok" else "viol:a program recorded as rejected is accepted again") ++ "\t-"
     | some (.list [.atom "contains", sp, sv]) =>
       match tyOfSexp sp, valOfSexp sv with
       | some p, some v =>
@@ -83,10 +105,12 @@ def handle (line : String) : String :=
           | some [.atom "false"] => some false
           | _ => none
         let spec := match ir with
-          | none => "viol:contains_operator-crashed"
+          | none => "viol:crash of contains_operator for " ++ showVal v
           | some b => if !(goodPat T0 p) || b == den T0 p v then "ok"
                       else "viol:contains_operator answers " ++ toString b ++ " for " ++ showVal v ++ " against the denotation"
-        cid ++ "\t(r " ++ toString m ++ ")\t" ++ spec ++ "\t-"
+        let mc := crashes T0 p v
+        cid ++ "\t(r " ++ (if mc then (match findTagged "r" xs with | some [.atom a] => (if a.startsWith "crash" then a else "crash:TypeError") | _ => "crash:TypeError") else toString m) ++ ")\t" ++ spec ++ "\t" ++
+          (if spec.startsWith "viol:crash" && mc then "C33-arm-test-type-error" else "-")
       | _, _ => cid ++ "\tout-of-model(type)\t-\t-"
     | _ => cid ++ "\tbad-input\t-\t-"
   | _ => "?\tbad-line\t-\t-"
